@@ -174,6 +174,11 @@ func (dc *ClientDnsConnection) QueryWithData(req commands.Request, timeout time.
 			log.Warnf("Server did not understand our command: %v", reqMsg)
 		}
 
+		if e.Err == nil {
+			// An error response whose text could not be read (it holds a NUL octet, say) is still an error response:
+			// callers take a nil error to mean "resp is the answer to my request"
+			return resp, errors.Errorf("Server answered with an error it gave no reason for")
+		}
 		return resp, e.Err
 	}
 
